@@ -29,3 +29,59 @@ package gate
 //@   ensures [bad-patch-json-rejected] called(u2) && res(u2) != nil ==> result.1 != nil && result.0 == nil
 //@   ensures [strict-decode-gate] result.1 == nil ==> called(dec) && res(dec) == nil && result.0 == &candidate
 //@   ensures [error-or-config] (result.1 == nil) != (result.0 == nil)
+
+// ---- C35: live configuration changes are atomic, validated, versioned ------------------------------------------------
+// Every apply runs inside reloadMu. A candidate is published only after ALL gates passed, in this order: it is not nil,
+// it differs from the current configuration, it validates without errors, it differs from the current one in Lite routes
+// only, its routes could be cloned and the Java proxy accepted them. Every rejection publishes nothing.
+//@ func (*Gate).applyLiveConfigLocked
+//@   props C35
+//@   requires held(g.reloadMu) == wlocked
+//@   at-call Load as cur: assert arg0 == g.currentConfig
+//@   at-call configsEqual as same: assert candidate != nil && arg0 == res(cur) && arg1 == candidate
+//@   at-call Validate as val: assert called(same) && !res(same) && arg0 == candidate
+//@   at-call onlyLiveLiteRoutesChanged as only: assert [validated-first] called(val) && len(res(val, 1)) == 0 && arg0 == res(cur) && arg1 == candidate
+//@   at-call cloneLiveLiteRoutes as clone: assert [route-only-changes] called(only) && res(only)
+//@   at-call ApplyLiveConfig as push: assert called(clone) && res(clone, 1) == nil && arg0 == g.javaProxy
+//@   at-call Store as publish: assert [published-only-after-every-gate-inside-the-lock] held(g.reloadMu) == wlocked && called(push) && res(push) == nil && arg0 == g.currentConfig
+//@   ensures [applied-iff-published] result.Applied == called(publish)
+//@   ensures [nil-candidate-is-invalid] candidate == nil ==> streq(result.Code, "invalid") && !called(publish)
+//@   ensures [same-content-is-unchanged] called(same) && res(same) ==> !called(publish) && (streq(result.Code, "unchanged") ==> result.Unchanged)
+//@   ensures [invalid-candidate-is-rejected] called(val) && len(res(val, 1)) != 0 ==> streq(result.Code, "invalid") && !called(publish)
+//@   ensures [other-changes-are-unsupported] called(only) && !res(only) ==> streq(result.Code, "unsupported") && !called(publish)
+//@   ensures [proxy-refusal-publishes-nothing] called(push) && res(push) != nil ==> !called(publish) && !result.Applied
+//@   ensures [still-locked] held(g.reloadMu) == wlocked
+
+// Unconditional and conditional apply: both take the reload lock for the whole operation; the conditional one computes
+// the CURRENT version inside the lock and applies only if it equals the expected one (compare-and-swap); a mismatch
+// reports the current version and touches nothing.
+//@ func (*Gate).ApplyLiveConfig
+//@   props C35
+//@   at-call applyLiveConfigLocked as ap: assert held(g.reloadMu) == wlocked && arg0 == g && arg1 == candidate
+//@ func (*Gate).ApplyLiveConfigIfVersion
+//@   props C35
+//@   at-call Load as cur: assert [current-read-inside-the-lock] held(g.reloadMu) == wlocked && arg0 == g.currentConfig
+//@   at-call configVersion as ver: assert held(g.reloadMu) == wlocked && called(cur) && arg0 == res(cur)
+//@   at-call applyLiveConfigLocked as ap: assert [compare-and-swap] held(g.reloadMu) == wlocked && called(ver) && res(ver, 1) == nil && streq(res(ver, 0), expectedVersion) && arg1 == candidate
+//@   ensures [stale-version-is-refused] called(ver) && res(ver, 1) == nil && !streq(res(ver, 0), expectedVersion) ==> !called(ap) && streq(result.Code, "precondition_failed") && streq(result.Version, res(ver, 0)) && !result.Applied
+//@   ensures [version-failure-applies-nothing] called(ver) && res(ver, 1) != nil ==> !called(ap) && !result.Applied
+
+// The version is the hex SHA-256 of the configuration's JSON: same content, same version.
+//@ func configVersion
+//@   props C35
+//@   at-call Marshal as js: assert ref(arg0) == cfg
+//@   at-call Sum256 as h: assert called(js) && res(js, 1) == nil && ref(arg0) == ref(res(js, 0)) && len(arg0) == len(res(js, 0))
+//@   ensures [encoding-error-is-an-error] called(js) && res(js, 1) != nil ==> result.1 != nil && !called(h)
+// Content equality is equality of the JSON encodings.
+//@ func configsEqual
+//@   props C35
+//@   at-call Marshal#1 as ja: assert ref(arg0) == a
+//@   at-call Marshal#2 as jb: assert ref(arg0) == b
+//@   at-call Equal as eq: assert called(ja) && res(ja, 1) == nil && called(jb) && res(jb, 1) == nil && ref(arg0) == ref(res(ja, 0)) && ref(arg1) == ref(res(jb, 0))
+//@   ensures [json-equality] (called(eq) ==> result == res(eq)) && (!called(eq) ==> !result)
+// Route-only: both must run Lite, and everything but the routes must be equal.
+//@ func onlyLiveLiteRoutesChanged
+//@   props C35
+//@   at-call configsEqual as rest
+//@   ensures [lite-on-both-sides] current == nil || candidate == nil ==> !result && !called(rest)
+//@   ensures [rest-must-be-equal] called(rest) ==> result == res(rest)
